@@ -28,6 +28,7 @@ func init() {
 			"G11 every iteration over the given ASTs that adjusts the top-level call reads Ast.Call (except where the file does not declare the callable). " +
 			"G12 top calls are deleted from the trim candidates in a later pass than the one adding children. " +
 			"G13 sets that let a loop or a recursive walk skip work are keyed by what the work depends on (declaration id, not bare name); G14 hasSideEffects recurses into every callable a pipeline calls, not only pipelines. " +
+			"G15 a verdict computed from Edit.Apply and carried out of a loop over the ASTs accumulates. " +
 			"NOT decided: that the edited program compiles, call-graph equality, round-trip of renames.",
 		Assumptions: commonAssumptions,
 	}
@@ -318,6 +319,7 @@ func runC19(c *an.Ctx) {
 	ruleG12(c)
 	ruleMemoKeyL(c, "G13", true, "martian/syntax/refactoring")
 	ruleG14(c)
+	ruleG15(c)
 
 	// ---------------- G2 ----------------
 	walkers := []struct {
